@@ -45,6 +45,34 @@ CLAIMED = {
     design_ref='DESIGN.md section 4, C20',
     note='bounded; SQLite JSON1 assumed.',
     technique='contracts on real functions executed natively over exhaustive small domains (bounded stand-in)'),
+  'C10': dict(
+    category='other',
+    text='QL.StrLiteral is decided for all strings per dialect by the string-homomorphism decider (branch structure '
+         'extracted from the current AST; per-character round trip through a table-driven lexer spec of each engine, '
+         'all Unicode scalar values for the json branch): complete for its fragment. Function/Infix single-pass '
+         'formatting, BuildFlagValues and UseFlagsAsParameters are contracts executed natively (bounded); the SQLite '
+         'round trip of literals and flag values in six positions is a bounded end-to-end contract.',
+    design_ref='DESIGN.md section 4, C10',
+    note="Engines' lexical rules are assumptions (tables in vlib/strhom.py, from the manuals); U+000C excluded for "
+         'Databricks; literals containing `${` are outside the domain (reserved flag syntax); json.dumps is per-character.',
+    technique='contract-based verification: finite-class decision procedure for single-character replace chains (homomorphism) + bounded native contract execution'),
+  'C14': dict(
+    category='other',
+    text='Scheduler step lemma (UpdateStateForIterativeAction: counter, re-queue position, frame) and the edge-recording '
+         'postcondition of TranslateTableAttachedToFile are proved from the current source for all states; the '
+         'whole-run statements are a contract on Concertina.Run checked on every well-formed plan up to 4/5 actions '
+         'with every placement of one or two iteration groups and every stop-signal time.',
+    design_ref='DESIGN.md section 4, C14',
+    note='engine.Run assumed not to touch scheduler state; display code dropped; plan well-formedness is a precondition; whole-run part is bounded.',
+    technique='contract-based deductive verification (Python-AST VCs, z3/cvc5) + exhaustive small-plan contract execution (bounded)'),
+  'C17': dict(
+    category='other',
+    text='TranslateTableAttachedToFile proved: one export statement per defined grounded predicate placed after the '
+         'statements of the nested compilation, memoised second request emits nothing, table name is the @Ground name, '
+         'every reader gets a dependency edge. Callees are assumed by contract (append-only statement list).',
+    design_ref='DESIGN.md section 4, C17',
+    note='SQLite DDL semantics; assumed contracts of PredicateSql / UseFlagsAsParameters / dialect methods; run-sequence behaviour bounded.',
+    technique='contract-based deductive verification (Python-AST VCs, z3/cvc5)'),
 }
 NA = {
   'C05': 'no contract within reach: needs a declarative typing judgement and a soundness argument linking inferred signatures to run-time values; the only available oracle would be a second type checker (different technique). Unification core is decided under C16.',
